@@ -20,10 +20,13 @@ def bytesStr (b : Bytes) : String := String.ofList (b.map Char.ofNat)
 
 structure Store where
   fmtOK : Bool := true
+  custom : Option String := none  -- a formater of the harness's own was handed to SetFormater ("permval" / "permall")
   reg : Bool := false
   entries : List Entry := []
   built : Collection := []        -- model: the table made by the last Build
-  snap : List Entry := []         -- spec: the entries registered at the last Build
+  builtPanic : Bool := false      -- model: that Build panicked (a nil entry)
+  snap : List Entry := []         -- spec: the entries registered at the last Build, as far as Build can get
+  snapPanic : Bool := false       -- spec: a registered nil entry stops the Build there
   snapFmt : Bool := true
 
 structure St where
@@ -47,7 +50,14 @@ def parseKind : String → Kind
 
 def parseTy (v : String) : Option TyDesc :=
   match v.splitOn "/" with
-  | [k, i, c, h] => (bytesOfHex h).map fun id => ⟨parseKind k, i == "1", c == "1", id⟩
+  | [k, i, c, h] => (bytesOfHex h).map fun id => ⟨parseKind k, i == "1", c == "1", id, [], none, none⟩
+  | [k, i, c, h, asg, nid, z] =>
+    -- asg: comma separated ids of the other pool types assignable to this one ("-" = none);
+    -- nid: reflect.PtrTo(t.Elem()).String() where it differs from t.String() ("-" = the same);
+    -- z: digest of the zero value where that is not a nil pointer ("-" = none)
+    (bytesOfHex h).map fun id =>
+      ⟨parseKind k, i == "1", c == "1", id, if asg == "-" then [] else (asg.splitOn ",").filterMap bytesOfHex,
+        if nid == "-" then none else bytesOfHex nid, if z == "-" then none else bytesOfHex z⟩
   | _ => none
 
 def parseIns (ws : List String) (n : Nat) : Option (List TyDesc) :=
@@ -72,6 +82,11 @@ def parseNF : Option String → Option (Bytes → Bytes)
   | some "upper" => some upperB
   | some "lcamel" => some lcamelB
   | _ => none
+
+def parseLegacy : Option String → Legacy
+  | some "absent" => .absent
+  | some "answers" => .answers
+  | _ => .silent
 
 structure BehX where
   beh : Beh
@@ -101,6 +116,21 @@ def parseHints (ws : List String) : List (Bytes × Option Bytes) :=
 
 def hintDecoder (hints : List (Bytes × Option Bytes)) : Decoder :=
   fun tid _ => ((hints.find? (·.1 == tid)).map (·.2)).getD none
+
+/-- the declared types for which the reference decoder PANICKED (`d:<type>=panic`) -/
+def parsePanicHints (ws : List String) : List Bytes :=
+  ws.filterMap fun w =>
+    if w.startsWith "d:" then
+      match ((w.drop 2).toString).splitOn "=" with
+      | [t, "panic"] => bytesOfHex t
+      | _ => none
+    else none
+
+/-- the serializer as the execution semantics takes it: value | error | panics -/
+def hintDecoderX (ws : List String) : DecoderX :=
+  let hints := parseHints ws
+  let pans := parsePanicHints ws
+  fun tid d => if pans.contains tid then .panics else Decoder.lift (hintDecoder hints) tid d
 
 def parseCtx (ws : List String) : CtxArg :=
   match kv ws "ctxt" with
@@ -136,7 +166,8 @@ def dumpBuilt (col : Collection) : String :=
   showDump (col.flatMap fun c => (dedupKeys c.handlers).map fun (k, h) => showItem c.name k h)
 
 def showRan (h : Handler) (ctxSet : Bool) (arg : ArgV) : String :=
-  let v := match arg with | .nil => "6e756c6c" | .val _ v => hexOfBytes v
+  -- a nil argument becomes the zero value of the declared type (makeValueMaybeNil): a nil pointer ("null"), or the zero struct
+  let v := match arg with | .nil => (h.argT.zero.map hexOfBytes).getD "6e756c6c" | .val _ v => hexOfBytes v
   s!"{bytesStr h.meth.id}@{h.eid}:{hexOfBytes h.argT.id}:{v}:ctx={if ctxSet then "set" else "nil"}"
 
 def showComp (sfx : String) : Comp → String
@@ -146,6 +177,15 @@ def showComp (sfx : String) : Comp → String
 
 def showComps (sfx : String) (l : List Comp) : String :=
   if l.isEmpty then "-" else ",".intercalate (l.map (showComp sfx))
+
+/-- an execution as the harness prints it: `[panic ]ran=<runs> comps=<completions>` -/
+def showExec (x : Exec) (sfx : String) : String :=
+  let runs := x.runs.map fun (h, cs, a) => showRan h cs a
+  let comps := x.evs.filterMap fun e => match e with
+    | .cb byH isErr => some ((if byH then "h:" else "f:") ++ (if isErr then "err" else "ok") ++ sfx)
+    | .run _ _ _ => none
+  let lst := fun (l : List String) => if l.isEmpty then "-" else ",".intercalate l
+  s!"{if x.panicking then "panic " else ""}ran={lst runs} comps={lst comps}"
 
 def showOutcome (o : Outcome) (comps : List Comp) (sfx : String) : String :=
   let ran := match o with | .invoked h cs a => showRan h cs a | _ => "-"
@@ -164,10 +204,37 @@ def mkEntry (s : St) (ws : List String) : Option Entry := do
     | some "none" | none => []
     | some "inner" => [95]
     | _ => (kvHex ws "group").getD []
-  pure { eid := eid, typeName := tname, isPtr := ptr == 1, methods := ms, group := group, nameFunc := parseNF (kv ws "nf") }
+  pure { eid := eid, typeName := tname, isPtr := ptr == 1, methods := ms, group := group, nameFunc := parseNF (kv ws "nf"),
+         isNil := (kvNat ws "nil").getD 0 != 0 }
+
+/-- the spec's own reading of what a Build reaches: entries in order; a nil entry is passed over when its configured
+group is already owned by an earlier entry, and stops the Build otherwise -/
+def specEffective (fmtOK : Bool) : List Entry → List Entry → List Entry × Bool
+  | [], acc => (acc, false)
+  | e :: r, acc =>
+    if e.isNil then
+      if e.group == [] || (owner fmtOK acc e.group).isNone then (acc, true) else specEffective fmtOK r acc
+    else specEffective fmtOK r (acc ++ [e])
+
+/-- the harness's own formaters (`SetFormater` takes any `IAPIFormatter`): "permval" = the default predicate with one check
+relaxed — the message may also be a struct BY VALUE; "permall" = every exported method -/
+def customFormater : String → Formater
+  | "permval" => some fun m =>
+      m.exported && (m.ins.length == 3 || m.ins.length == 4) &&
+      (match m.ins[1]? with | some t => t.kind == .ptr && t.implCtx | none => false) &&
+      (match m.ins[2]? with | some t => t.kind == .ptr || t.kind == .struct | none => false) &&
+      (match m.ins[3]? with | some t => t.kind == .func | none => true)
+  | _ => some fun m => m.exported
+
+def Store.formater (st : Store) : Formater :=
+  match st.custom with
+  | some n => customFormater n
+  | none => Formater.ofBool st.fmtOK
 
 def rebuild (st : Store) : Store :=
-  { st with built := build st.fmtOK st.entries, snap := st.entries, snapFmt := st.fmtOK }
+  let b := buildX st.formater st.entries []
+  let e := specEffective st.fmtOK st.entries []
+  { st with built := b.1, builtPanic := b.2, snap := e.1, snapPanic := e.2, snapFmt := st.fmtOK }
 
 /-- state changes of the bookkeeping ops; `none` = malformed op -/
 def update (s : St) (ws : List String) : Option St :=
@@ -190,10 +257,14 @@ def update (s : St) (ws : List String) : Option St :=
         let (sid, _) ← s.store j
         let s0 : St := { s with cols := (s.cols.filter (fun c => c.1 != k)) ++ [(k, sid)] }
         pure s0
-    if kv ws "fmt" == some "nil" then do
+    match kv ws "fmt" with
+    | some "nil" => do
       let (sid, st) ← s1.store k
       pure (s1.setStore sid { st with fmtOK := false })
-    else pure s1
+    | some "permval" | some "permall" => do
+      let (sid, st) ← s1.store k
+      pure (s1.setStore sid { st with custom := kv ws "fmt" })
+    | _ => pure s1
   | some "regrace" => do
     -- n goroutines call Registry.AddCollection(same fresh name) concurrently: a sequence of atomic
     -- `Registry.add` steps, so every one of them holds the same collection (registry_same_name_same_collection)
@@ -237,7 +308,7 @@ def step (s : St) (line : String) : St × String :=
       | none => (s', "bad-op")
     | some "build" =>
       match (kvNat ws "col").bind s'.store with
-      | some (_, st) => (s', dumpBuilt st.built)
+      | some (_, st) => (s', if st.builtPanic then "panic" else dumpBuilt st.built)
       | none => (s', "bad-op")
     | some "has" =>
       match (kvNat ws "col").bind s'.store, kvHex ws "route" with
@@ -249,30 +320,31 @@ def step (s : St) (line : String) : St × String :=
     | some "csz" =>
       match (kvNat ws "col").bind s'.store, kvHex ws "route", kvHex ws "data", parseBeh (kv ws "beh"), kv ws "ser" with
       | some (_, st), some route, some data, some beh, some ser =>
-        let dec : Option Decoder := if ser == "nil" then none else some (hintDecoder (parseHints ws))
+        let dec : Option DecoderX := if ser == "nil" then none else some (hintDecoderX ws)
         let hasCb := kvNat ws "cb" == some 1
-        let o := callWithSerialize st.built dec route (parseCtx ws) data hasCb
-        (s', showOutcome o (completions o hasCb beh) "")
+        (s', showExec (callWithSerializeX st.built dec route (parseCtx ws) data (if hasCb then some false else none) beh) "")
       | _, _, _, _, _ => (s', "bad-op")
     | some "call" =>
       match (kvNat ws "col").bind s'.store, kvHex ws "route", parseBeh (kv ws "beh") with
       | some (_, st), some route, some beh =>
         let hasCb := kvNat ws "cb" == some 1
-        let o := call st.built route (parseCtx ws) (parseArg ws) hasCb
-        (s', showOutcome o (completions o hasCb beh) "")
+        (s', showExec (callX st.built route (parseCtx ws) (parseArg ws) (if hasCb then some false else none) beh) "")
       | _, _, _ => (s', "bad-op")
     | some "disp" =>
       match kvHex ws "route", kvHex ws "data", parseBeh (kv ws "beh"), kvNat ws "reqid", kvHex ws "rc" with
       | some route, some data, some beh, some reqid, some rc =>
         let cols := (parseNatList ((kv ws "cols").getD "")).filterMap fun k => (s'.store k).map (·.2.built)
         let isNotify := reqid == 0
-        let r := dispatch cols (hintDecoder (parseHints ws)) rc route data isNotify
-        let o := r.2.getD .fwErr
-        let shown := match r.2 with
-          | some o => showOutcome o (responses r isNotify beh) s!"#{reqid}"
-          | none => s!"ran=- comps={showComps s!"#{reqid}" (responses r isNotify beh)}"
-        let _ := o
-        (s', s!"ret={b2s r.1} {shown}")
+        let hasSender := kvNat ws "snd" != some 0
+        if kv ws "via" == some "recv" then
+          -- through Service.Receive / handleRequest: dispatcher (unless nodisp=1), then the legacy receiver
+          let disp := if kv ws "nodisp" == some "1" then none else some cols
+          let r := handleRequestX disp (hintDecoderX ws) rc route data isNotify hasSender (parseLegacy (kv ws "legacy")) beh
+          (s', (if r.1.panicking then "panic " else "") ++ s!"legacy={b2s r.2} " ++ showExec { r.1 with panicking := false } s!"#{reqid}")
+        else
+        let r := dispatchX cols (hintDecoderX ws) rc route data isNotify hasSender beh
+        -- a Dispatch that panics returns nothing: the harness shows its zero value
+        (s', (if r.2.panicking then "panic " else "") ++ s!"ret={b2s (r.1 && !r.2.panicking)} " ++ showExec { r.2 with panicking := false } s!"#{reqid}")
       | _, _, _, _, _ => (s', "bad-op")
     | _ => (s', "bad-op")
 
@@ -330,6 +402,9 @@ def judgeCall (op : String) (o : Obs) (hasCb : Bool) (beh : Beh) (cbPanicsOnBad 
       else if fs.any (· != "f:err" ++ sfx) then "VIOLATION C13/completed-without-error " ++ op
       else if fs.length > (if handlerPanics then 1 else 0) then "VIOLATION C13/callback-completed-twice " ++ op
       else if handlerPanics && fs.isEmpty && hs.isEmpty then "VIOLATION C13/callback-never-completed (panicking handler) " ++ op
+      -- a handler that completed and THEN panicked: SafeCall completes a second time (Props.panicking_handler_completes_once_full_fails);
+      -- undisciplined handler, outside the statement as it is read here - reported, not alarmed on
+      else if handlerPanics && !hs.isEmpty && !fs.isEmpty then "ok outside-statement handler-completed-then-panicked-completed-again"
       else "ok"
     | some r, _ => s!"VIOLATION C13/wrong-handler-or-argtype expected once {r} :: {op}"
     | none, _ =>
@@ -351,7 +426,7 @@ def cbOK (h : Handler) : Bool := !h.isRequest || ((h.meth.ins[3]?).map (·.cbAss
 
 def ctxOK (h : Handler) : CtxArg → Bool
   | .nil => true
-  | .ty id => id == h.ctxT.id
+  | .ty id => assignableTo id h.ctxT
 
 def specStep (s : St) (line : String) : St × String :=
   match line.splitOn "\t" with
@@ -363,6 +438,15 @@ def specStep (s : St) (line : String) : St × String :=
     | none => (s, "bad-op")
     | some s' =>
       let o := parseObs obs
+      -- a collection with a formater of the harness's own: "exposes exactly the handler-shaped methods" and "nothing escapes"
+      -- are claims about the default formater; these ops tie the model (buildX, the Elem() panic) and are not judged
+      let customInvolved :=
+        (match (kvNat ws "col").bind s'.store with | some (_, st) => st.custom.isSome | none => false) ||
+        (ws.head? == some "disp" &&
+          ((parseNatList ((kv ws "cols").getD "")).filterMap fun k => (s'.store k).map (·.2)).any (·.custom.isSome))
+      if customInvolved && (ws.head? == some "build" || ws.head? == some "has" || ws.head? == some "csz" ||
+          ws.head? == some "call" || ws.head? == some "disp") then (s', "ok outside-statement custom-formater")
+      else
       match ws.head? with
       | some "reset" | some "newcol" | some "entry" => (s', "ok")
       | some "regrace" =>
@@ -379,7 +463,10 @@ def specStep (s : St) (line : String) : St × String :=
       | some "build" =>
         match (kvNat ws "col").bind s'.store with
         | some (_, st) =>
-          if o.panic then (s', "VIOLATION C13/escaping-panic " ++ op)
+          -- a nil entry was registered: programmer error at start-up, outside "calling a route"; what Build does
+          -- with it (panic: Props.build_nil_entry_panics) is tied by the model, not judged
+          if st.snapPanic then (s', "ok outside-statement nil-entry-registered")
+          else if o.panic then (s', "VIOLATION C13/escaping-panic " ++ op)
           else
             let want := specDump st.snapFmt st.snap
             if obs == want then (s', "ok") else (s', s!"VIOLATION C13/exposed-set-wrong want [{want}] got [{obs}]")
@@ -405,7 +492,13 @@ def specStep (s : St) (line : String) : St × String :=
             | some h, some v =>
               if ctxOK h ctx && cbOK h && (h.isRequest || !hasCb) then some (showRan h (ctx != .nil) (.val h.argT.id v)) else none
             | _, _ => none
-          (s', judgeCall op o hasCb beh false target expRan decoded.isSome "")
+          -- the serializer ITSELF panicked on this payload for the declared type (a user serializer, a message type
+          -- whose UnmarshalJSON panics): outside the statement's quantifier (JSON / protobuf serializers decoding
+          -- or rejecting the payload); the escaping panic is what the code does today (Props: exec_serializer_panic_escapes)
+          -- and is reported, not alarmed on.  Anything else than a panic is judged like an undecodable payload.
+          let serPanics := ser != "nil" && (target.map fun h => (parsePanicHints ws).contains h.argT.id).getD false
+          if serPanics && o.panic && o.ran.isEmpty && o.comps.isEmpty then (s', "ok outside-statement serializer-panics")
+          else (s', judgeCall op o hasCb beh false target expRan decoded.isSome "")
         | _, _, _, _ => (s', "bad-op")
       | some "call" =>
         match (kvNat ws "col").bind s'.store, kvHex ws "route", parseBeh (kv ws "beh") with
@@ -414,7 +507,7 @@ def specStep (s : St) (line : String) : St × String :=
           let ctx := parseCtx ws
           let arg := parseArg ws
           let target := specRoute st.snapFmt st.snap route
-          let argOK := fun (h : Handler) => match arg with | .nil => true | .val t _ => t == h.argT.id
+          let argOK := fun (h : Handler) => match arg with | .nil => true | .val t _ => assignableTo t h.argT
           let expRan := match target with
             | some h =>
               if ctxOK h ctx && argOK h && cbOK h && (h.isRequest || !hasCb) then some (showRan h (ctx != .nil) arg) else none
@@ -427,19 +520,50 @@ def specStep (s : St) (line : String) : St × String :=
           let stores := (parseNatList ((kv ws "cols").getD "")).filterMap fun k => (s'.store k).map (·.2)
           let hasCb := reqid != 0
           let sfx := s!"#{reqid}"
+          let hasSender := kvNat ws "snd" != some 0
+          let viaRecv := kv ws "via" == some "recv"
+          let legacy := parseLegacy (kv ws "legacy")
+          -- Dispatch is reached: always for a direct Dispatch; through handleRequest only with a dispatcher and a route
+          let toApi := !viaRecv || (kv ws "nodisp" != some "1" && route != [])
           -- the first collection whose table has the route processes the request
-          let tgt := stores.findSome? fun st => specRoute st.snapFmt st.snap route
+          let tgt := if toApi then stores.findSome? fun st => specRoute st.snapFmt st.snap route else none
+          let dec := hintDecoder (parseHints ws)
+          let decoded := tgt.bind fun h => dec h.argT.id []
+          let ctx := CtxArg.ty rc
+          let expRan := match tgt, decoded with
+            | some h, some v =>
+              if ctxOK h ctx && cbOK h && (h.isRequest || !hasCb) then some (showRan h true (.val h.argT.id v)) else none
+            | _, _ => none
+          -- who gets the request
           let wantRet := b2s tgt.isSome
-          if !o.panic && o.ret != some wantRet then
+          let wantLegacy := b2s (tgt.isNone && legacy != .absent)
+          if !viaRecv && !o.panic && o.ret != some wantRet then
             (s', s!"VIOLATION C13/dispatch-wrong-collection Dispatch returned {o.ret} want {wantRet} :: {op}")
+          else if viaRecv && !o.panic && kv (words obs) "legacy" != some wantLegacy then
+            (s', s!"VIOLATION C13/dispatch-wrong-collection handleRequest: legacy receiver consulted={kv (words obs) "legacy"} want {wantLegacy} :: {op}")
+          else if !hasSender then
+            -- a request without a sender cannot be answered: nothing may be sent, nothing may escape, and the
+            -- handler runs exactly when it would have with a sender
+            if o.panic then (s', "VIOLATION C13/escaping-panic " ++ op)
+            else if !o.comps.isEmpty then (s', "VIOLATION C13/wrong-handler-or-argtype a response was sent for a request without sender :: " ++ op)
+            else match expRan, o.ran with
+              | none, [] => (s', "ok")
+              | some r, [r'] => if r == r' then (s', "ok") else (s', s!"VIOLATION C13/wrong-handler-or-argtype expected {r} got {r'} :: {op}")
+              | some r, [] => (s', s!"VIOLATION C13/handler-not-invoked expected {r} :: {op}")
+              | _, _ => (s', s!"VIOLATION C13/wrong-handler-or-argtype ran {o.ran} :: {op}")
+          else if viaRecv && tgt.isNone then
+            -- no collection has the route (or the request never reaches the dispatcher): a request that reached
+            -- Dispatch is answered "no method" exactly once; an ANSWERING legacy receiver then answers as well —
+            -- user code outside the statement (Props: unknown_route_answered_once_full_fails), reported, not alarmed on
+            let fromApi := if toApi && hasCb then ["f:err" ++ sfx] else []
+            let fromLegacy := if legacy == .answers && hasCb then ["h:ok" ++ sfx] else []
+            if o.panic then (s', "VIOLATION C13/escaping-panic " ++ op)
+            else if !o.ran.isEmpty then (s', s!"VIOLATION C13/wrong-handler-or-argtype nothing may run, ran {o.ran} :: {op}")
+            else if o.comps == fromApi ++ fromLegacy then
+              (s', if !fromApi.isEmpty && !fromLegacy.isEmpty then "ok outside-statement legacy-receiver-answers-after-no-method" else "ok")
+            else if !fromApi.isEmpty && !o.comps.contains ("f:err" ++ sfx) then (s', "VIOLATION C13/callback-never-completed " ++ op)
+            else (s', s!"VIOLATION C13/callback-completed-twice responses {o.comps} :: {op}")
           else
-            let dec := hintDecoder (parseHints ws)
-            let decoded := tgt.bind fun h => dec h.argT.id []
-            let ctx := CtxArg.ty rc
-            let expRan := match tgt, decoded with
-              | some h, some v =>
-                if ctxOK h ctx && cbOK h && (h.isRequest || !hasCb) then some (showRan h true (.val h.argT.id v)) else none
-              | _, _ => none
             (s', judgeCall op o hasCb beh true tgt expRan decoded.isSome sfx)
         | _, _, _, _ => (s', "bad-op")
       | _ => (s', "bad-op")
